@@ -5,11 +5,40 @@
  * hindexed datatypes (decoded with MPI_Type_get_contents).
  *
  *   M <n> <off len buf>*n     ->   M <nsegs> <off,len,buf>* F <disp,blocklen>* B <disp,blocklen>*
+ *   F <ndim> <el> <offset> <bufaddr> <dimlen>*ndim <start>*ndim <count>*ndim <stride>*ndim
+ *                             ->   F <nseg> <off,len,buf>*          (vars_flatten called directly)
+ *   G <n> <addr size>*n       ->   G <nblocks> <disp,blocklen>*     (mgetput called directly on a scratch file with n
+ *                                  requests on a 1-D NC_BYTE variable whose I/O buffers are arena+addr; the buffer
+ *                                  datatype it hands to MPI_File_write_at is captured by a PMPI wrapper and decoded;
+ *                                  MPI_BYTE x count is printed as the single block 0,count)
  *
  * Every segment is presented as one request on a 1-D NC_BYTE variable that begins at file offset 0
  * (start = off, count = len, xbuf = base + buf), so vars_flatten() yields exactly that segment.
  */
 #include "ncmpio_wait.c"
+#include <dispatch.h>
+#include <unistd.h>
+
+/* ---- PMPI wrapper: capture the buffer datatype mgetput passes to MPI_File_write_at ---- */
+static int gnc = -1, gvar; static char gpath[600];
+static int cap_on, cap_n; static long long cap_disp[4096], cap_len[4096];
+static int cap_calls;
+/* mgetput builds the file type first (construct_filetypes: one MPI_Type_create_hindexed call) and, when the requests'
+   buffers do not form one contiguous run, the buffer type with a second call; otherwise the buffer is MPI_BYTE x count */
+int MPI_Type_create_hindexed(int count, const int *blocklens, const MPI_Aint *disps, MPI_Datatype oldtype, MPI_Datatype *newtype)
+{
+    if (cap_on) {
+        int i;
+        cap_calls++;
+        if (cap_calls == 2) { cap_n = count; for (i = 0; i < count && i < 4096; i++) { cap_disp[i] = (long long)disps[i]; cap_len[i] = blocklens[i]; } }
+    }
+    return PMPI_Type_create_hindexed(count, blocklens, disps, oldtype, newtype);
+}
+int MPI_File_write_at(MPI_File fh, MPI_Offset off, const void *buf, int count, MPI_Datatype t, MPI_Status *st)
+{
+    if (cap_on && cap_calls < 2 && t == MPI_BYTE) { cap_n = 1; cap_disp[0] = 0; cap_len[0] = count; }
+    return PMPI_File_write_at(fh, off, buf, count, t, st);
+}
 
 #define MAXS 4096
 static char arena[1 << 20];
@@ -44,6 +73,54 @@ int main(int argc, char **argv)
         void *buf; MPI_Offset nsegs = 0; off_len *segs = NULL;
         MPI_Datatype ft = MPI_BYTE, bt = MPI_BYTE;
         long long base0;
+        if (s && !strcmp(s, "F")) {
+            int ndim = atoi(strtok(NULL, " \n")), el = atoi(strtok(NULL, " \n")), k;
+            long long offset = atoll(strtok(NULL, " \n")), baddr = atoll(strtok(NULL, " \n"));
+            MPI_Offset dl[8], st[8], ct[8], sr[8], nseg = 0, tot = 1; off_len *sg;
+            for (k = 0; k < ndim; k++) dl[k] = atoll(strtok(NULL, " \n"));
+            for (k = 0; k < ndim; k++) st[k] = atoll(strtok(NULL, " \n"));
+            for (k = 0; k < ndim; k++) { ct[k] = atoll(strtok(NULL, " \n")); tot *= ct[k] > 0 ? ct[k] : 1; }
+            for (k = 0; k < ndim; k++) sr[k] = atoll(strtok(NULL, " \n"));
+            sg = (off_len *)calloc((size_t)tot + 1, sizeof(off_len));
+            vars_flatten(ndim, el, (MPI_Offset)offset, dl, (MPI_Aint)baddr, st, ct, sr, &nseg, sg);
+            printf("F %lld", (long long)nseg);
+            for (k = 0; k < nseg; k++) printf(" %lld,%lld,%lld", (long long)sg[k].off, (long long)sg[k].len, (long long)sg[k].buf_addr);
+            printf("\n"); free(sg);
+            continue;
+        }
+        if (s && !strcmp(s, "G")) {
+            int n = atoi(strtok(NULL, " \n")), i; long long fo = 0;
+            PNC *pp; NC *ncp; NC_lead_req *ll; NC_req *rq;
+            if (gnc < 0) {
+                int d;
+                snprintf(gpath, sizeof gpath, "%s/c02_unit_%d.nc", argc > 1 ? argv[1] : "/tmp", (int)getpid());
+                ncmpi_create(MPI_COMM_WORLD, gpath, NC_CLOBBER | NC_64BIT_DATA, MPI_INFO_NULL, &gnc);
+                ncmpi_def_dim(gnc, "b", 1 << 20, &d); ncmpi_def_var(gnc, "vb", NC_BYTE, 1, &d, &gvar);
+                ncmpi_enddef(gnc); ncmpi_begin_indep_data(gnc);
+            }
+            PNC_check_id(gnc, &pp); ncp = (NC *)pp->ncp;
+            ll = (NC_lead_req *)NCI_Calloc((size_t)n, sizeof(NC_lead_req));
+            rq = (NC_req *)NCI_Calloc((size_t)n, sizeof(NC_req));
+            for (i = 0; i < n; i++) {
+                long long addr = atoll(strtok(NULL, " \n")), sz = atoll(strtok(NULL, " \n"));
+                ll[i].varp = ncp->vars.value[gvar]; ll[i].flag = NC_REQ_TO_FREE | NC_REQ_STRIDE_NULL | NC_REQ_BUF_TYPE_IS_CONTIG;
+                ll[i].abuf_index = -1; ll[i].nonlead_off = i; ll[i].nonlead_num = 1; ll[i].nelems = sz; ll[i].id = 2 * i;
+                ll[i].start = (MPI_Offset *)NCI_Malloc(3 * sizeof(MPI_Offset));
+                ll[i].start[0] = fo; ll[i].start[1] = sz; ll[i].start[2] = 1;
+                rq[i].start = ll[i].start; rq[i].lead_off = i; rq[i].nelems = sz; rq[i].xbuf = arena + (1 << 19) + addr;
+                rq[i].offset_start = ncp->vars.value[gvar]->begin + fo; rq[i].offset_end = rq[i].offset_start + sz;
+                fo += sz + 1;    /* file ranges increasing and not touching */
+            }
+            ncp->put_lead_list = ll; ncp->numLeadPutReqs = n;
+            cap_on = 1; cap_n = 0; cap_calls = 0;
+            mgetput(ncp, n, rq, NC_REQ_WR, NC_REQ_INDEP);    /* frees rq and every lead's start[] */
+            cap_on = 0;
+            ncp->put_lead_list = NULL; ncp->numLeadPutReqs = 0; NCI_Free(ll);
+            printf("G %d", cap_n);
+            for (i = 0; i < cap_n; i++) printf(" %lld,%lld", cap_disp[i], cap_len[i]);
+            printf("\n");
+            continue;
+        }
         if (!s || strcmp(s, "M")) { printf("bad-op\n"); continue; }
         n = atoi(strtok(NULL, " \n"));
         for (i = 0; i < 3 * n; i++) v[i] = atoll(strtok(NULL, " \n"));
@@ -74,6 +151,7 @@ int main(int argc, char **argv)
         printf("\n");
         NCI_Free(segs); free(leads); free(reqs); free(sc);
     }
+    if (gnc >= 0) { ncmpi_end_indep_data(gnc); ncmpi_close(gnc); unlink(gpath); }
     MPI_Finalize();
     return 0;
 }
